@@ -9,6 +9,7 @@ mod rec_ipm;
 mod rec_more;
 mod rec_csc;
 mod rec_equil;
+mod rec_json;
 mod replay_qdldl;
 mod replay_presolve;
 mod replay_update;
@@ -64,7 +65,9 @@ pub fn write_lines(path: &str, lines: &[Value]) {
 
 fn main() {
     // panics inside the code under test are data: keep stderr quiet
-    std::panic::set_hook(Box::new(|_| {}));
+    if std::env::var("VH_SHOW_PANICS").is_err() {
+        std::panic::set_hook(Box::new(|_| {}));
+    }
     let args = parse_args();
     match args.cmd.as_str() {
         "ipm" => cmd_ipm(&args),
@@ -93,6 +96,24 @@ fn main() {
         "update-replay" => {
             let r = replay_update::replay_file(&args.get("in", "b.ndjson"), &args.get("out", "m.ndjson"), args.num("seed", 1), args.num("every", 50) as usize);
             println!("{}", r);
+        }
+        "json" => {
+            let dir = args.get("dir", "/tmp");
+            let (mut lines, cases) = rec_json::roundtrip_events(args.num("seed", 1), args.num("count", 300) as usize, &dir);
+            let nrt = lines.len();
+            lines.extend(rec_json::fault_events(args.num("seed", 1), args.get("tier", "quick") == "thorough", &dir));
+            write_lines(&args.get("out", "json.ndjson"), &lines);
+            write_lines(&args.get("cases", "json.cases.ndjson"), &cases);
+            println!("{}", json!({"roundtrips": nrt, "faults": lines.len() - nrt}));
+        }
+        "json-replay" => {
+            let v = load_case(&args);
+            let p: problem::Problem = serde_json::from_value(v["problem"].clone()).unwrap();
+            let mut lines = vec![];
+            for (sf, mu) in [(false, false), (true, false), (false, true), (true, true)] {
+                lines.push(rec_json::roundtrip_event(v["run"].as_u64().unwrap_or(0) as usize, &p, &args.get("dir", "/tmp"), sf, mu));
+            }
+            write_lines(&args.get("out", "json.ndjson"), &lines);
         }
         "csc" => {
             let (lines, meta) = rec_csc::record(args.num("seed", 1), args.get("tier", "quick") == "thorough");
@@ -180,7 +201,7 @@ fn cmd_ipm_replay(args: &Args) {
     write_lines(&args.get("out", "trace.ndjson"), &lines);
 }
 
-fn gen_family(rng: &mut StdRng, family: &str, nmax: usize) -> problem::Problem {
+pub fn gen_family(rng: &mut StdRng, family: &str, nmax: usize) -> problem::Problem {
     let mut o = gen::GenOpts { nmax, ..Default::default() };
     let fam = if family == "mixed" { ["feasible", "feasible", "pinf", "dinf", "badscale", "infb", "objscale"][rng.gen_range(0..7)] } else { family };
     match fam {
